@@ -335,6 +335,28 @@ def run_system(ctx, case):
     s = G.build(sp)
     with np.errstate(all='ignore'):
         p = s.createPRISM()
+    any_contact = judge_system(ctx, s, p, sp, d, kT, dr, rng, 'fresh System')
+    if case['seed'] % 3 == 0:
+        # potential objects that one PRISM object has already wired (taken from PRISM.sys.potential) are assigned to ANOTHER System with
+        # other diameters: a sigma that was never given explicitly is still the mean of the diameters of the pair it now belongs to
+        ctx.hook('system.potentials_recycled_from_prism_sys')
+        d2 = {t: v + 2 * dr for t, v in d.items()}
+        sp2 = dict(sp, d=d2, pot={k: dict(v, **({'rcut': v['rcut']} if 'rcut' in v else {})) for k, v in sp['pot'].items()})
+        s2 = G.build(sp2, omit=set('pot:' + k for k in sp['pot']))
+        for (i, j), (a, b) in G.pairs(types):
+            s2.potential[a, b] = p.sys.potential[a, b]
+        with np.errstate(all='ignore'):
+            p2 = s2.createPRISM()
+        # the user-level expectation: explicit sigmas stay, defaulted ones follow the new diameters (r_cut etc. are the objects' own)
+        any_contact |= judge_system(ctx, s2, p2, sp2, d2, kT, dr, rng, 'System re-using the potential objects of an earlier PRISM.sys', users_sigma_check=False)
+    if any_contact:
+        ctx.nontrivial(case)
+    ctx.count('system_rank', len(types))
+    ctx.sample({'system': {'dr': dr, 'L': L, 'd': d, 'pot': sp['pot'], 'clo': sp['clo']}}, limit=5)
+
+
+def judge_system(ctx, s, p, sp, d, kT, dr, rng, what, users_sigma_check=True):
+    types = sp['types']
     r = np.asarray(p.sys.domain.r)
     any_contact = False
     for (i, j), (a, b) in G.pairs(types):
@@ -345,7 +367,7 @@ def run_system(ctx, case):
         clo = p.sys.closure[a, b]
         got = np.asarray(clo.potential, dtype=float) * kT
         # (1) the user's own potential object is untouched (sigma stays None when defaulted)
-        if s.potential[a, b].sigma != ps.get('sigma'):
+        if users_sigma_check and s.potential[a, b].sigma != ps.get('sigma'):
             ctx.violation('system:sigma-leaks-into-users-potential', 'createPRISM wrote sigma=%r into the System\'s own %s potential (was %r)' % (s.potential[a, b].sigma, ps['t'], ps.get('sigma')))
         # (2) which sigma was used: explicit one, otherwise the arithmetic mean of the diameters (to the contact tolerance)
         for name, sig, used in (('potential', sig_u, None), ('closure', sig_d, clo.sigma)):
@@ -359,7 +381,7 @@ def run_system(ctx, case):
         ok_b, eb = agree(got[away], ref_b[away], rtol=1e-10)
         ctx.observe('system_potential/1e-10', min(ea, eb) / 1e-10)
         if not (ok_a or ok_b):
-            ctx.violation('system:closure-potential-wrong:%s' % ps['t'], 'pair %s-%s: potential/kT handed to the closure differs from %s%s on the domain grid with sigma=%r, kT=%r (rel err %.3g)' % (
+            ctx.violation('system:closure-potential-wrong:%s' % ps['t'], what + ': pair %s-%s: potential/kT handed to the closure differs from %s%s on the domain grid with sigma=%r, kT=%r (rel err %.3g)' % (
                 a, b, ps['t'], {k: v for k, v in ps.items() if k != 't'}, sig_u, kT, min(ea, eb)))
         # (4) the contact rule
         ci = np.where(~away)[0]
@@ -371,7 +393,7 @@ def run_system(ctx, case):
             noisy = 'above' if r[c] > sig_u else ('below' if r[c] < sig_u else 'equal')
             ctx.count('contact_fp_noise', noisy)
             if not abs(got[c] - hv) <= 1e-12 * abs(hv):
-                ctx.violation('system:contact-point-outside-core:potential', 'pair %s-%s (%s, dr=%r): grid point r=%r coincides with sigma=%r (|diff|=%.1e < 1e-6) but the potential there is the tail value %r, not the overlap value' % (
+                ctx.violation('system:contact-point-outside-core:potential', what + ': pair %s-%s (%s, dr=%r): grid point r=%r coincides with sigma=%r (|diff|=%.1e < 1e-6) but the potential there is the tail value %r, not the overlap value' % (
                     a, b, ps['t'], dr, float(r[c]), sig_u, abs(r[c] - sig_u), float(got[c])))
             if c + 1 < len(r) and abs(got[c + 1] - hv) <= 1e-12 * abs(hv):
                 ctx.violation('system:core-extends-past-contact', 'pair %s-%s: the point after contact r=%r is still inside the core' % (a, b, float(r[c + 1])))
@@ -386,10 +408,7 @@ def run_system(ctx, case):
             if not abs(cc[c] + 1 + gam[c]) <= 8 * np.finfo(float).eps * (1 + abs(gam[c])):
                 ctx.violation('system:contact-point-outside-core:closure', 'pair %s-%s (dr=%r): grid point r=%r coincides with sigma=%r but the hard-core closure does not return -1-gamma there' % (
                     a, b, dr, float(r[c]), sig_d))
-    if any_contact:
-        ctx.nontrivial(case)
-    ctx.count('system_rank', len(types))
-    ctx.sample({'system': {'dr': dr, 'L': L, 'd': d, 'pot': sp['pot'], 'clo': sp['clo']}}, limit=5)
+    return any_contact
 
 
 def run_case(ctx, case):
